@@ -9,7 +9,8 @@ code silently assumes, right-handedness after the signed permutation, shears uni
 a step is wrong when the smallest component of the translation numerator T does not divide M.
 
 Tie (every run): random primitive crystals x random integer supercell matrices (|det| 2..6) x random atom
-order x noise <= threshold/10 -> Crystal(...) -> compared with the primitive description; the lattice of the
+order x noise <= threshold/5 (thresholds 1e-8, 1e-6, 1e-5) -> Crystal(...) -> compared with the primitive description
+(volume per atom, counts, handedness, |G|, multiset of interatomic distances up to 2 lattice constants); the lattice of the
 result is expressed exactly in the primitive lattice (integer matrix U) and checked by the Coq checker."""
 META = dict(
     level="proof",
@@ -23,8 +24,8 @@ META = dict(
     note=("Missing from the proofs: termination of the two recursions, the search for the translation (thresholded float "
           "comparisons, averaging of noisy positions), completeness (a non-trivial translation is always found); these are "
           "decided per generated input by the correspondence. Lattices in the volume statement are integer (rational after "
-          "scaling); the float volume is compared at 1e-9 relative. Noise amplitude 1e-9 in supercell unit coordinates "
-          "(threshold 1e-8)."),
+          "scaling); the float volume is compared at 1e-9 relative. Noise amplitude <= 0.2 x threshold in supercell unit coordinates; "
+          "interatomic distances compared at 10 x threshold x (longest supercell vector, >= 1)."),
     technique="Coq verified summary checker + step lemmas (one refuted with witness) + exact correspondence on random supercells",
 )
 
@@ -72,6 +73,39 @@ def pseudo_translation_spec(rng, spec):
     return latt.Spec(spec.label + "+pseudo", spec.A, spec.g, basis, None, spec.Aq)
 
 
+def distance_lists(lattice, basis, rcut):
+    """per ordered species pair: sorted array of all interatomic distances in (0, rcut) from the atoms of one cell"""
+    A = np.asarray(lattice, dtype=float); d = A.shape[0]
+    n = int(np.ceil(rcut * np.abs(np.linalg.inv(A)).sum(axis=1).max())) + 1
+    cells = np.array(list(itertools.product(range(-n, n + 1), repeat=d)), dtype=float)
+    out = {}
+    for c1, l1 in enumerate(basis):
+        for c2, l2 in enumerate(basis):
+            ds = []
+            for u in l1:
+                for v in l2:
+                    dx = (cells + (np.asarray(v) - np.asarray(u))) @ A.T
+                    r = np.sqrt((dx * dx).sum(axis=1))
+                    ds.append(r[(r > 1e-7) & (r < rcut)])
+            out[(c1, c2)] = np.sort(np.concatenate(ds)) if ds else np.zeros(0)
+    return out
+
+
+def safe_cutoff(lattice, basis, r0):
+    """a cutoff near r0 that is at least 2e-3 away from every interatomic distance of the exact primitive description"""
+    ref = np.concatenate([v for v in distance_lists(lattice, basis, r0 + 0.1).values()] + [np.zeros(1)])
+    r = r0
+    while np.any(np.abs(ref - r) < 2e-3): r += 1.7e-3
+    return r
+
+
+def origin_shift(spec):
+    """the same crystal with its first atom at the origin (so that copies sit at coordinate exactly 0)"""
+    u0 = spec.basis[0][0]
+    basis = [[tuple(latt.mod1(a - b) for a, b in zip(u, u0)) for u in ul] for ul in spec.basis]
+    return latt.Spec(spec.label, spec.A, spec.g, basis, spec.spins, spec.Aq)
+
+
 def random_supercell_matrix(rng, d, negative=False):
     while True:
         N = [[rng.randint(-2, 3) for _ in range(d)] for _ in range(d)]
@@ -106,7 +140,9 @@ def run(ck):
     from onsager import crystal
     ck.rule = ("random primitive crystals (all crystal systems, 2-D/3-D, 1-3 species, <= 4 atoms, optional scalar spins; non-primitive "
                "decorations rejected by an exact test) x random integer supercell matrices with entries in -2..3 and det 2..6 (10% "
-               "with det -2..-6: left-handed description) x random atom order x uniform noise <= 1e-9 (threshold/10) in 2/3 of the cases; "
+               "with det -2..-6: left-handed description) x random atom order x thresholds 1e-8 (default, half of the cases), 1e-6, 1e-5 passed to Crystal x per-copy uniform noise of both signs with "
+               "amplitude 0, 0.05, 0.1 or 0.2 x threshold (the code compares differences of differences: up to 4 x amplitude must stay below the threshold); in 60% of the cases the first atom is moved to the origin (copies at coordinate exactly 0, "
+               "noisy copies straddle the cell boundary); "
                "distinct = distinct (crystal, matrix, order); all cases non-trivial (index >= 2)")
     ck.trusted += ["harness/latt.py, c19.py: supercell construction in exact rationals, rationalisation of the result lattice in the "
                    "primitive lattice (verified to 1e-9)", "float volume comparison at 1e-9 relative"]
@@ -143,14 +179,16 @@ def run(ck):
             stats["rejected-nonprimitive"] += 1; continue
         neg = rng.random() < 0.1
         N, det = random_supercell_matrix(rng, dim, neg)
-        noise = 1e-9 if rng.random() < 0.67 else 0.0
+        if rng.random() < 0.6: spec = origin_shift(spec)
+        thr = rng.choice([1e-8, 1e-8, 1e-6, 1e-5])
+        noise = rng.choice([0.0, 0.05, 0.1, 0.2, 0.2]) * thr   # per-copy noise of both signs; 4 x amplitude stays below the threshold
         A, basis, spins = supercell(rng, nr, spec, N, noise)
         stats["cases"] += 1; stats["negdet"] += int(neg); stats["noisy"] += int(noise > 0)
-        replay = {"primitive": spec.describe(), "supercell_matrix": N, "det": det, "noise": noise,
+        replay = {"primitive": spec.describe(), "supercell_matrix": N, "det": det, "noise": noise, "threshold": thr,
                   "lattice": A.tolist(), "basis": [[u.tolist() for u in ul] for ul in basis], "spins": spins}
         ck.case(key=(spec.describe(), N, [[[round(float(x), 6) for x in u] for u in ul] for ul in basis]), nontrivial=True,
-                kind="%dD-det%d-%s-%s" % (dim, det, "noise" if noise else "exact", "spins" if spins else "nospin"),
-                sample={"primitive": spec.label, "atoms": spec.natoms(), "supercell_matrix": N, "det": det, "noise": noise} if len(ck.samples) < 6 else None)
+                kind="%dD-det%d-thr%g-noise%g-%s" % (dim, det, thr, noise / thr, "spins" if spins else "nospin"),
+                sample={"primitive": spec.label, "atoms": spec.natoms(), "supercell_matrix": N, "det": det, "noise": noise, "threshold": thr} if len(ck.samples) < 6 else None)
         try:
             prim = latt.build(spec)      # the implementation on the primitive description
         except Exception as e:
@@ -160,7 +198,7 @@ def run(ck):
         if [len(ul) for ul in prim.basis] != cprim:
             report("primitive description itself was changed by reduction", replay, "c19-primitive-changed"); continue
         try:
-            res = crystal.Crystal(A, basis, spins=spins)
+            res = crystal.Crystal(A, basis, spins=spins, threshold=thr) if thr != 1e-8 else crystal.Crystal(A, basis, spins=spins)
         except ArithmeticError as e:
             stats["exceptions"] += 1
             report("Crystal(supercell) raised ArithmeticError: %s" % e, replay,
@@ -181,8 +219,37 @@ def run(ck):
             report("atoms per species %s differ from the primitive cell's %s" % (cres, cprim), dict(replay, **summary), "c19-species-count")
         if not detres > 0:
             report("reduced lattice is left-handed (det %.6g)" % detres, dict(replay, **summary), "c19-lefthanded")
+        gkey = "c19-group-order"
         if len(res.G) != len(prim.G):
-            report("|G| = %d differs from the primitive description's %d" % (len(res.G), len(prim.G)), dict(replay, **summary), "c19-group-order")
+            # classify by the cell minlattice() returned: if its metric has automorphisms with entries beyond +-1 the group
+            # search of gengroup (entries in {-1,0,1}) is incomplete there -- minlattice stopped at a tie (a_i.a_j / a_i^2 = +-1/2)
+            try:
+                Uq = [[latt.rat(x, 720) for x in r] for r in np.linalg.solve(spec.A, res.lattice)]
+                gres = latt.fmat_mul(latt.fmat_T(Uq), latt.fmat_mul(spec.g, Uq))
+                if len(latt.holohedry(gres, 2)) != len(latt.holohedry(gres, 1)): gkey = "c19-minlattice-tie"
+            except latt.Irrational:
+                pass
+            summary["result_lattice"] = res.lattice.tolist(); summary["tie_class"] = (gkey == "c19-minlattice-tie")
+            report("|G| = %d differs from the primitive description's %d%s" % (len(res.G), len(prim.G),
+                   " [minlattice returned a cell whose metric automorphisms have entries beyond +-1]" if gkey != "c19-group-order" else ""),
+                   dict(replay, **summary), gkey)
+        # geometry: multiset of interatomic distances per species pair, against the exact primitive description
+        if cres == cprim:
+            L = max(1.0, float(np.sqrt((A * A).sum(axis=0)).max()))
+            dtol = 10 * thr * L
+            rcut = safe_cutoff(spec.A, spec.fbasis(), 2.0 * float(np.sqrt((spec.A * spec.A).sum(axis=0)).min()))
+            dref = distance_lists(spec.A, spec.fbasis(), rcut)
+            dres = distance_lists(res.lattice, res.basis, rcut)
+            worst = 0.0; bad = None
+            for key in dref:
+                a, b = dref[key], dres[key]
+                if len(a) != len(b): bad = "species pair %s: %d distances below %.4f instead of %d" % (key, len(b), rcut, len(a)); break
+                if len(a): worst = max(worst, float(np.abs(a - b).max()))
+            stats["max-dist-err/thr"] = max(stats.get("max-dist-err/thr", 0.0), worst / thr)
+            if bad or worst > dtol:
+                report("interatomic distances of the reduced crystal differ from the primitive description: %s" %
+                       (bad or "max deviation %.3g > %.3g" % (worst, dtol)), dict(replay, **summary, basis_result=[[u.tolist() for u in ul] for ul in res.basis]),
+                       "c19-distances")
         # exact: the result lattice in the primitive lattice
         try:
             Uf = np.linalg.solve(spec.A, res.lattice)
@@ -209,7 +276,9 @@ def run(ck):
         for (t, replay), code in zip(ch, res[0]):
             stats["coq"] += 1
             if code != 0:
-                report("Coq summary checker: " + DIAG.get(code, str(code)), replay, "c19-coq-%d" % code)
+                report("Coq summary checker: " + DIAG.get(code, str(code)), replay,
+                       "c19-minlattice-tie" if (code == 4 and stats["by-key"].get("c19-minlattice-tie") and replay.get("result_lattice")
+                                                and replay.get("tie_class")) else "c19-coq-%d" % code)
     ck.extra["stats"] = stats
     ck.extra["skipped"] = {"nonprimitive-decoration": stats["rejected-nonprimitive"]}
     ck.extra["traces_validated_against_impl"] = stats["coq"]
